@@ -98,6 +98,11 @@ fn session_main(args: &[String], dump: bool) -> i32 {
     let mut out = Trace { profile: prof.name().into(), runs: Vec::new() };
     for idx in from..to {
         let mut tr = ops::generate(run_seed(base, prof, idx), prof, false);
+        if !dump {
+            // so that the driver knows which run was executing if the process dies
+            println!("BEGIN idx={idx}");
+            let _ = std::io::Write::flush(&mut std::io::stdout());
+        }
         let rep = run_one(&tr, &opts);
         if dump {
             tr.sched = rep.sched.rec.clone();
